@@ -455,16 +455,24 @@ fn apply_filter_with_static_argument_value<'query, Vertex: Debug + Clone + 'quer
             apply_filter_op_with_static_argument(right_value, not!(has_substring), iterator)
         }
         Operation::RegexMatches(_, _) => {
-            let pattern =
-                Regex::new(right_value.as_str().expect("regex argument was not a string"))
-                    .expect("regex argument was not a valid regex");
-            apply_filter_op_with_static_argument(pattern, regex_matches_optimized, iterator)
+            // A pattern that is not a valid regex matches nothing, the same as
+            // when the pattern comes from a tag: see `regex_matches_slow_path()`.
+            match Regex::new(right_value.as_str().expect("regex argument was not a string")) {
+                Ok(pattern) => {
+                    apply_filter_op_with_static_argument(pattern, regex_matches_optimized, iterator)
+                }
+                Err(_) => apply_filter_op_with_static_argument((), |_, _| false, iterator),
+            }
         }
         Operation::NotRegexMatches(_, _) => {
-            let pattern =
-                Regex::new(right_value.as_str().expect("regex argument was not a string"))
-                    .expect("regex argument was not a valid regex");
-            apply_filter_op_with_static_argument(pattern, not!(regex_matches_optimized), iterator)
+            match Regex::new(right_value.as_str().expect("regex argument was not a string")) {
+                Ok(pattern) => apply_filter_op_with_static_argument(
+                    pattern,
+                    not!(regex_matches_optimized),
+                    iterator,
+                ),
+                Err(_) => apply_filter_op_with_static_argument((), |_, _| true, iterator),
+            }
         }
 
         Operation::IsNull(_) | Operation::IsNotNull(_) => unreachable!("{filter:?}"),
